@@ -892,6 +892,7 @@ pub struct IterBridgeSeq<T> {
 impl<T: Iterator> Iterator for IterBridgeSeq<T> {
     type Item = T::Item;
     fn next(&mut self) -> Option<T::Item> {
+        crate::sim::shared_access();
         let mut g = self.shared.lock().unwrap_or_else(|e| e.into_inner());
         let r = g.as_mut().and_then(|it| it.next());
         if r.is_none() {
